@@ -99,16 +99,15 @@ def all_stacks(depth):
 def opcode_alphabet(rng, tier):
     """every opcode x stacks of depth <= arity+1"""
     cases = []
-    budget_full = 1900 if tier == "thorough" else 0
     for o in IMPLEMENTED:
         ar = ARITY[o]
         per_op = []
         for d in range(0, ar + 2):
             total = 12 ** d
-            if tier == "thorough" and total <= budget_full:
+            if d <= min(ar, 2) or (tier == "thorough" and (d <= 2 or (d == 3 and ar >= 3))):
                 per_op.extend(all_stacks(d))
             else:
-                k = {"quick": [1, 4, 8, 10, 10, 8, 8, 8][d], "thorough": min(total, 1200)}[tier]
+                k = {"quick": [1, 4, 8, 10, 10, 8, 8, 8][d], "thorough": min(total, 700 if d <= 4 else 300)}[tier]
                 k = min(k, total)
                 seen = set()
                 while len(seen) < k:
@@ -118,6 +117,85 @@ def opcode_alphabet(rng, tier):
         for s in per_op:
             cases.append(("interp.run", [stack_script(s, o)]))
     return cases
+
+
+SMALL = [-2, -1, 0, 1, 2, 3]
+EDGE = [127, 128, 129, 255, 256, 32767, 32768, 65535, 65536, 8388607, 8388608, 2 ** 31 - 1, 2 ** 31, 2 ** 32 - 1, 2 ** 32,
+        2 ** 39 - 1, 2 ** 39, 2 ** 63 - 1, 2 ** 63, 2 ** 64, 2 ** 127 - 1, 2 ** 127]
+TRUTH = ["", "00", "80", "0000", "0080", "8000", "000080", "008000", "800000", "01", "81", "0100", "0001", "000000000001", "0000000080", "ff", "7f"]
+UNARY_NUM = [139, 140, 141, 142, 143, 144, 145, 146, 129]
+BINARY_NUM = [147, 148, 149, 150, 151, 154, 155, 156, 157, 158, 159, 160, 161, 162, 163, 164]
+
+
+def boundary_stream(rng, tier):
+    """both sides of every threshold: comparisons on adjacent small integers, encodings at every byte boundary,
+    truthiness of every zero spelling, index / position operands around the depth / length"""
+    out = []
+    R = lambda parts: out.append(("interp.run", ["+".join(parts)]))
+    for o in BINARY_NUM:
+        for a in SMALL:
+            for b in SMALL:
+                R([push(num(a)), push(num(b)), op(o)])
+    for x in SMALL + [4]:
+        for mn in SMALL:
+            for mx in SMALL:
+                if tier == "thorough" or (x + 2 * mn + 3 * mx) % 2 == 0 or x in (mn, mx):
+                    R([push(num(x)), push(num(mn)), push(num(mx)), op(165)])
+    edges = sorted(set(EDGE + [-e for e in EDGE]))
+    for o in UNARY_NUM:
+        for e in edges:
+            R([push(num(e)), op(o)])
+        for h in ["ff0000", "ff0080", "000000", "7f00", "7f80", "ffff0000", "0000008000"]:
+            R([push(h), op(o)])
+    for o in BINARY_NUM[:5] + [163, 164, 159, 162]:
+        for _ in range(30 if tier == "quick" else 400):
+            a = rng.choice(edges) + rng.choice([-1, 0, 1]); b = rng.choice(edges + SMALL) + rng.choice([-1, 0, 1])
+            R([push(num(a)), push(num(b)), op(o)])
+    # truthiness
+    for t in TRUTH:
+        R([push(t), "63", "55", "67", "56", "68"]); R([push(t), "64", "55", "67", "56", "68"])
+        R([push(t), "63", "55", "68"]); R([push(t), "64", "55", "68"])
+        R([push(t), "69"]); R([push(t), "73"]); R([push(t), "91"]); R([push(t), "92"])
+        R(["51", push(t), "9a"]); R([push(t), "51", "9a"]); R(["00", push(t), "9b"]); R([push(t), "00", "9b"])
+        R([push(t), push(t), "87"]); R([push(t), "00", "87"]); R([push(t), "00", "9c"]); R([push(t), "00", "9e"]); R([push(t), "00", "88"]); R([push(t), "00", "9d"])
+    # indices around the depth, distinct items
+    for depth in range(0, 6):
+        items = [push(num(k + 1)) for k in range(depth)]
+        for idx in range(-1, depth + 2):
+            R(items + [push(num(idx)), "79"]); R(items + [push(num(idx)), "7a"])
+        for h in ["0100", "00", "80", "0000000000", "0100000000", "0200000000000000000000", "0000008000"]:
+            R(items + [push(h), "79"]); R(items + [push(h), "7a"])
+    for n in range(0, 5):
+        x = bytes(range(1, n + 1)).hex()
+        for pos in range(-1, n + 2):
+            R([push(x), push(num(pos)), "7f"])
+        R([push(x), push("0100000000"), "7f"]); R([push(x), push("00"), "7f"]); R([push(x), push("80"), "7f"])
+    R(["4c50+l:7:80", push(num(79)), "7f"]); R(["4c50+l:7:80", push(num(80)), "7f"]); R(["4c50+l:7:80", push(num(81)), "7f"])
+    # deep stacks (distinct items 0..299 made with OP_DEPTH) and long items: byte- and word-size thresholds
+    for idx in [0, 1, 126, 127, 128, 129, 254, 255, 256, 257, 298, 299, 300]:
+        R(["r:74:300", push(num(idx)), "79", "77" * 0 + "r:77:299"]); R(["r:74:300", push(num(idx)), "7a", "r:77:299"])
+    R(["r:74:300", "74"]); R(["r:74:130", "74", "82", "77"])
+    for n in [75, 76, 127, 128, 255, 256, 257, 1000, 32767, 32768, 65535, 65536]:
+        item = ("4c%02x" % n if n < 256 else "4d" + n.to_bytes(2, "little").hex() if n < 65536 else "4e" + n.to_bytes(4, "little").hex()) + "+l:3:%d" % n
+        R([item, "82", "77"])
+        for pos in [n - 1, n, n + 1, 127, 128, 255, 256]:
+            R([item, push(num(pos)), "7f", "82", "7c", "82", "7c", "75", "77"])
+        R([item, "76", "7e", "82", "77"])
+        if n <= 1000:
+            R([item, "a8"]); R([item, "a9"]); R([item, "a6"]); R([item, "a7"]); R([item, "aa"])
+    # every fixed-arity stack opcode on distinct items, at exactly its arity, one below, one above
+    for o in [109, 110, 111, 112, 113, 114, 115, 117, 118, 119, 120, 123, 124, 125, 107, 130, 126, 135, 136]:
+        ar = ARITY[o]
+        for d in (ar - 1, ar, ar + 1, ar + 2):
+            if d >= 0:
+                R([push(num(k + 1)) for k in range(d)] + [op(o)])
+    R(["51", "52", "6b", "6b", "6c", "6c"]); R(["51", "6b", "52", "6c", "6c"]); R(["51", "52", "53", "6b", "7c", "6c"])
+    # bitwise on equal and unequal lengths
+    for a, b in [("", ""), ("00", "ff"), ("0f", "f0"), ("0f0f", "f0ff"), ("ff", "ff00"), ("", "00"), ("aa55aa", "0ff00f")]:
+        for o in (132, 133, 134):
+            R([push(a), push(b), op(o)]); R([push(b), push(a), op(o)])
+        R([push(a), "83"])
+    return out
 
 
 def rand_item(rng):
@@ -215,6 +293,7 @@ def generate(rng, tier):
         cases.append(("interp.run", [s]))
         cases.append(("interp.trace", [s]))
     cases += opcode_alphabet(rng, tier)
+    cases += boundary_stream(rng, tier)
     nprog = 700 if tier == "quick" else 6000
     for i in range(nprog):
         parts, _ = rand_prog(rng, rng.choice([0, 1, 2, 3, 6]), rng.randrange(1, 14), 0, [6])
